@@ -53,6 +53,10 @@ fn ops_for(prop: &str, path: &str, th: bool) -> Vec<Op> {
         v.push(r("create").itype("file").mode(0o644));
         v.push(r("create").itype("dir").mode(0o750));
         v.push(r("create").itype("fifo").mode(0o600));
+        // Permissions values that carry file-type bits (what fs::metadata().permissions() yields): only the permission bits count
+        v.push(r("create").itype("file").mode(libc::S_IFSOCK | 0o640));
+        v.push(r("create").itype("dir").mode(libc::S_IFREG | 0o711));
+        v.push(r("create").itype("fifo").mode(libc::S_IFCHR | 0o600));
         v.push(r("create").itype("symlink").path2("../x"));
         v.push(r("create").itype("hardlink").path2("a/a"));
         v.push(r("create").itype("hardlink").path2("b"));
@@ -66,7 +70,12 @@ fn ops_for(prop: &str, path: &str, th: bool) -> Vec<Op> {
         v.push(Op::new("rename").root(ROOT_IN).path("a").path2(path).flags(0));
         v.push(r("rename").path2("b").flags(libc::RENAME_NOREPLACE as i64));
         v.push(r("rename").path2("b").flags(libc::RENAME_EXCHANGE as i64));
+        v.push(r("create").itype("dir").mode(0o750).rflags(RESOLVE_NO_SYMLINKS));
+        v.push(r("remove_file").rflags(RESOLVE_NO_SYMLINKS));
         if th {
+            v.push(r("create").itype("chr").mode(libc::S_IFBLK | 0o600).dev(0x0103));
+            v.push(r("rename").path2("x").flags(0).rflags(RESOLVE_NO_SYMLINKS));
+            v.push(r("create_file").flags(O_WRONLY | O_NONBLOCK).mode(libc::S_IFDIR | 0o640).rflags(RESOLVE_NO_SYMLINKS));
             v.push(r("create").itype("chr").mode(0o600).dev(0x0103));
             v.push(r("create").itype("blk").mode(0o600).dev(0x0700));
             v.push(r("create").itype("symlink").path2("/../../../secret"));
@@ -89,9 +98,10 @@ fn ops_for(prop: &str, path: &str, th: bool) -> Vec<Op> {
     };
     let mk = |v: &mut Vec<Op>| {
         for m in [0o755u32, 0o700, 0o1777] { v.push(r("mkdir_all").mode(m)); }
+        v.push(r("mkdir_all").mode(0o755).rflags(RESOLVE_NO_SYMLINKS));
         if th { for m in [0o000u32, 0o2755, 0o4755, 0o10755, 0o777] { v.push(r("mkdir_all").mode(m)); } v.push(Op::new("mkdir_all").capi().root(ROOT_IN).path(path).mode(0o750)); }
     };
-    let rm = |v: &mut Vec<Op>| { v.push(r("remove_all")); if th { v.push(Op::new("remove_all").capi().root(ROOT_IN).path(path)); } };
+    let rm = |v: &mut Vec<Op>| { v.push(r("remove_all")); v.push(r("remove_all").rflags(RESOLVE_NO_SYMLINKS)); if th { v.push(Op::new("remove_all").capi().root(ROOT_IN).path(path)); } };
     match prop {
         "C14" => single(&mut v),
         "C12" => mk(&mut v),
@@ -126,8 +136,8 @@ fn split_final(path: &str) -> Option<(String, String)> {
     }
 }
 
-fn resolve_dir(rootfd: i32, p: &str) -> Result<OwnedFd, i32> {
-    openat2(rootfd, p, O_PATH as u64, RESOLVE_IN_ROOT | RESOLVE_NO_MAGICLINKS)
+fn resolve_dir_rf(rootfd: i32, p: &str, rf: u64) -> Result<OwnedFd, i32> {
+    openat2(rootfd, p, O_PATH as u64, RESOLVE_IN_ROOT | RESOLVE_NO_MAGICLINKS | rf)
 }
 
 fn raw(r: i64) -> i32 { if r < 0 { errno() } else { 0 } }
@@ -136,7 +146,8 @@ fn raw(r: i64) -> i32 { if r < 0 { errno() } else { 0 } }
 fn oracle_single(rootfd: i32, op: &Op) -> Expect {
     let path = op.path.clone().unwrap_or_default();
     let (parent, name) = match split_final(&path) { Some(x) => x, None => return Expect::InvalidArgument };
-    let dir = match resolve_dir(rootfd, &parent) { Ok(d) => d, Err(e) => return Expect::Errno(e) };
+    let rf = op.rflags.unwrap_or(0);
+    let dir = match resolve_dir_rf(rootfd, &parent, rf) { Ok(d) => d, Err(e) => return Expect::Errno(e) };
     let d = dir.as_raw_fd();
     let cname = cs(&name);
     let mode = op.mode.unwrap_or(0o644);
@@ -160,7 +171,7 @@ fn oracle_single(rootfd: i32, op: &Op) -> Expect {
             "create:hardlink" => {
                 let tgt = op.path2.clone().unwrap_or_default();
                 let (tp, tn) = match split_final(&tgt) { Some(x) => x, None => return Expect::InvalidArgument };
-                let td = match resolve_dir(rootfd, &tp) { Ok(d) => d, Err(e) => return Expect::Errno(e) };
+                let td = match resolve_dir_rf(rootfd, &tp, rf) { Ok(d) => d, Err(e) => return Expect::Errno(e) };
                 let ctn = cs(&tn);
                 Expect::Errno(raw(libc::linkat(td.as_raw_fd(), ctn.as_ptr(), d, cname.as_ptr(), 0) as i64))
             }
@@ -174,7 +185,7 @@ fn oracle_single(rootfd: i32, op: &Op) -> Expect {
             "rename" => {
                 let dst = op.path2.clone().unwrap_or_default();
                 let (dp, dn) = match split_final(&dst) { Some(x) => x, None => return Expect::InvalidArgument };
-                let dd = match resolve_dir(rootfd, &dp) { Ok(x) => x, Err(e) => return Expect::Errno(e) };
+                let dd = match resolve_dir_rf(rootfd, &dp, rf) { Ok(x) => x, Err(e) => return Expect::Errno(e) };
                 let cdn = cs(&dn);
                 Expect::Errno(raw(libc::syscall(libc::SYS_renameat2, d, cname.as_ptr(), dd.as_raw_fd(), cdn.as_ptr(), op.flags.unwrap_or(0) as u32)))
             }
@@ -188,7 +199,8 @@ fn oracle_remove_all(rootfd: i32, op: &Op) -> Expect {
     let path = op.path.clone().unwrap_or_default();
     let (parent, name) = match split_final(&path) { Some(x) => x, None => return Expect::InvalidArgument };
     if name == "." || name == ".." { return Expect::Fails; }
-    let dir = match resolve_dir(rootfd, &parent) { Ok(d) => d, Err(e) => return Expect::Errno(e) };
+    let rf = op.rflags.unwrap_or(0);
+    let dir = match resolve_dir_rf(rootfd, &parent, rf) { Ok(d) => d, Err(e) => return Expect::Errno(e) };
     let full = format!("/proc/self/fd/{}/{}", dir.as_raw_fd(), name);
     match lstat(&full) {
         None => {
@@ -217,7 +229,7 @@ fn oracle_mkdir_all(rootfd: i32, op: &Op, umask: u32) -> (Expect, Option<(u64, u
     loop {
         let joined = comps[..k].join("/");
         let p = if k == 0 { ".".to_string() } else if joined.is_empty() { "/".to_string() } else { joined };
-        match openat2(rootfd, &p, O_PATH as u64, RESOLVE_IN_ROOT | RESOLVE_NO_MAGICLINKS) {
+        match openat2(rootfd, &p, O_PATH as u64, RESOLVE_IN_ROOT | RESOLVE_NO_MAGICLINKS | op.rflags.unwrap_or(0)) {
             Ok(fd) => { base = Some(fd); break; }
             Err(e) => { err_above = e; if k == 0 { break; } k -= 1; }
         }
@@ -358,10 +370,10 @@ pub fn run_item(prop: &str, tier: &str, idx: usize, only: Option<&Value>) -> MRe
                             // in which case that lookup error is an equally faithful rejection
                             let p = op.path.clone().unwrap_or_default();
                             let pre = p.trim_end_matches('/');
-                            let pre_err = if p.ends_with('/') && !pre.is_empty() { openat2(rootfd.as_raw_fd(), pre, O_PATH as u64, RESOLVE_IN_ROOT | RESOLVE_NO_MAGICLINKS).err() } else { None };
+                            let pre_err = if p.ends_with('/') && !pre.is_empty() { openat2(rootfd.as_raw_fd(), pre, O_PATH as u64, RESOLVE_IN_ROOT | RESOLVE_NO_MAGICLINKS | op.rflags.unwrap_or(0)).err() } else { None };
                             let p2 = op.path2.clone().unwrap_or_default();
                             let pre2 = p2.trim_end_matches('/');
-                            let pre2_err = if matches!(op.name.as_str(), "rename" | "hardlink") || op.itype.as_deref() == Some("hardlink") { if p2.ends_with('/') && !pre2.is_empty() { openat2(rootfd.as_raw_fd(), pre2, O_PATH as u64, RESOLVE_IN_ROOT | RESOLVE_NO_MAGICLINKS).err() } else { None } } else { None };
+                            let pre2_err = if matches!(op.name.as_str(), "rename" | "hardlink") || op.itype.as_deref() == Some("hardlink") { if p2.ends_with('/') && !pre2.is_empty() { openat2(rootfd.as_raw_fd(), pre2, O_PATH as u64, RESOLVE_IN_ROOT | RESOLVE_NO_MAGICLINKS | op.rflags.unwrap_or(0)).err() } else { None } } else { None };
                             o.ok || !(o.kind.as_deref() == Some("InvalidArgument") || o.errno == Some(libc::EINVAL) || (pre_err.is_some() && o.errno == pre_err) || (pre2_err.is_some() && o.errno == pre2_err))
                         }
                     };
